@@ -189,8 +189,7 @@ class Run(RunBase):
                 return False
             all_ids = [i for i, _, _ in net_ids(u["nets"][op["key"]])]
             new = set(all_ids)
-            # a network that repeats an id internally is only ever offered to add_objects (which must refuse it)
-            return len(new) == len(all_ids) and not (new & set(m.ids_of_kind(*OBST_KINDS)))
+            return not (new & set(m.ids_of_kind(*OBST_KINDS)))
         if k == "remove":
             ids = op["ids"]
             if len(set(ids)) != len(ids) or not ids:
@@ -389,6 +388,33 @@ class Run(RunBase):
         new = {t[0] for t in net_ids(spec)}
         if old & new:
             self.probe("replace-overlapping-ids")
+        all_ids = [t[0] for t in net_ids(spec)]
+        if len(set(all_ids)) != len(all_ids):
+            # the new network repeats an id internally: it must not end up in the scenario.  The old network may be
+            # gone already (erase, then refused add) or still there (all-or-nothing): both are accepted.
+            self.probe("replace-with-internally-repeated-id")
+            self.faults["F-reject"] += 1
+            try:
+                self.sc.replace_lanelet_network(net)
+                exc = None
+            except Exception as e:  # noqa
+                exc = e
+            if exc is None:
+                raise Violation(f"C09/duplicate-accepted/{_tag(op)}",
+                                f"replace_lanelet_network accepted a network in which ids "
+                                f"{sorted({i for i in all_ids if all_ids.count(i) > 1})} occur twice")
+            if not isinstance(exc, ValueError):
+                raise Violation(f"C09/wrong-exception/{_tag(op)}",
+                                f"replace_lanelet_network with a network repeating an id raised "
+                                f"{type(exc).__name__}: {exc}")
+            got = [list(t) for t in sut_abstract(self.sc)]
+            pre = [list(t) for t in sorted(self.m.abstract(), key=lambda t: (t[0], t[1], t[2] or 0))]
+            if got != pre:
+                for i in self.m.ids_of_kind("lanelet", "sign", "light", "intersection"):
+                    if i in self.m.contained:
+                        self.m.remove_id(i)
+            self._check_state(op, "state-after-refused-replace")
+            return "rejected"
         try:
             self.sc.replace_lanelet_network(net)
         except Exception as e:  # noqa
@@ -668,7 +694,7 @@ class C09(Property):
                        "remove-intersection-single", "lanelet-removal-takes-sign-or-light",
                        "lanelet-removal-leaves-shared-sign", "replace-overlapping-ids", "restart-pickle",
                        "restart-deepcopy", "remove-non-contained-obstacle", "gen-between-gen-and-add", "erase-network",
-                       "restart-file", "object-with-internally-repeated-id"]
+                       "restart-file", "object-with-internally-repeated-id", "replace-with-internally-repeated-id"]
     assumptions = [
         "interleaving granularity is one public call (the library has no threads)",
         "list-form adds are sequential adds: the accepted prefix before a refused element stays (documented relaxation)",
@@ -716,6 +742,10 @@ class C09(Property):
                    "lights": [obj_spec("light", i) for i in light_ids], "intersections": []}
             for lid in lan_ids:
                 net["lanelets"].append(lanelet_spec(lid, rng.subset(sign_ids, 0.5), rng.subset(light_ids, 0.5)))
+            if sign_ids and rng.chance(0.08):
+                net["signs"][0] = obj_spec("sign", lan_ids[0])  # a sign carrying the id of a lanelet of the same network
+                for la in net["lanelets"]:
+                    la["signs"] = [x for x in la["signs"] if x != sign_ids[0]]
             for _ in range(ni):
                 iid = pool.pop()
                 incs = sorted(pool.pop() for _ in range(rng.randint(1, 2)))
